@@ -18,6 +18,7 @@ P1 = ("pop", 1)      # _
 P2 = ("pop", 2)      # "   (pair)
 P3 = ("pop", 3)      # ∇   (rotate)
 PUSH = ("push",)     # 1
+BRK = ("break",)     # X: early return from the innermost lambda / function (a no-op at top level and in a list item)
 
 
 def lam(k, *body):
@@ -44,6 +45,8 @@ def render(op):
         return {1: "_", 2: '"', 3: "∇"}[op[1]]
     if t == "push":
         return "1 "
+    if t == "break":
+        return "X"
     if t == "lam":
         return "λ%d|%s;†" % (op[1], "".join(render(o) for o in op[2]))
     if t == "fn":
@@ -56,10 +59,15 @@ def render(op):
 
 
 # ---------------------------------------------------------------- the model: cursor automaton + concrete stacks
+class _Ret(Exception):
+    pass
+
+
 class Model:
     def __init__(self, inputs):
         self.scopes = [[list(inputs), 0]]
         self.log = []
+        self.frames = []
 
     def explicit(self):
         vals, k = self.scopes[0]
@@ -96,6 +104,12 @@ class Model:
                 stack.append(self.explicit())
             elif t == "push":
                 stack.append(1)
+            elif t == "break":
+                if self.frames and self.frames[-1] in ("lam", "fn"):
+                    raise _Ret()
+                # top level, list item, loop-free: no-op (loops are handled by the loop itself)
+                if self.frames and self.frames[-1] == "loop":
+                    raise _Ret()
             elif t == "pop":
                 if op[1] == 1:
                     self.pop(stack, 1)
@@ -109,7 +123,12 @@ class Model:
                 args = self.pop(stack, op[1])          # popped from the caller, in the caller's scope
                 inner = list(args)
                 self.scopes.append([list(args)[::-1], 0])
-                self.run(op[2], inner)
+                self.frames.append("lam")
+                try:
+                    self.run(op[2], inner)
+                except _Ret:
+                    pass
+                self.frames.pop()
                 res = self.pop(inner, 1)[0]            # the result is the top of the lambda's stack (a read if empty)
                 self.scopes.pop()
                 stack.append(res)
@@ -117,14 +136,21 @@ class Model:
                 args = self.pop(stack, op[1])
                 inner = list(args)
                 self.scopes.append([list(args)[::-1], 0])
-                self.run(op[2], inner)
+                self.frames.append("fn")
+                try:
+                    self.run(op[2], inner)
+                except _Ret:
+                    pass
+                self.frames.pop()
                 self.scopes.pop()
                 stack += inner
             elif t == "list":
                 items = []
                 for it in op[1]:
                     local = list(stack)
+                    self.frames.append("item")
                     self.run(it, local)
+                    self.frames.pop()
                     if local:
                         items.append(self.pop(local, 1)[0])
                 stack.append(items)
@@ -132,7 +158,13 @@ class Model:
                 stack.append(2)
                 self.pop(stack, 1)
                 for _ in range(2):
-                    self.run(op[1], stack)
+                    self.frames.append("loop")
+                    try:
+                        self.run(op[1], stack)
+                    except _Ret:
+                        self.frames.pop()
+                        break
+                    self.frames.pop()
         return stack
 
 
@@ -230,7 +262,7 @@ def check(part, ops, inputs):
     part.nontriv()
 
 
-MENU_A = [Q, P1, P2, P3, PUSH, lam(1, P1, P1), lam(2, P1, P1, P1, Q), fn(1, P1, P1), lst((P1,), (Q,))]
+MENU_A = [Q, P1, P2, P3, PUSH, lam(1, P1, P1), lam(2, P1, P1, P1, Q), fn(1, P1, P1), lst((P1,), (Q,)), fn(1, P1, BRK, P1)]
 INNER = [(), (P1,), (Q,), (P1, P1), (P2,), (Q, P1), (P1, P1, P1), (PUSH, P3), (lam(1, P1, P1),), (P1, lam(0, P1), P1)]
 
 
@@ -242,6 +274,8 @@ def menu_b():
     for k in (0, 1, 2):
         for body in INNER[:6]:
             out.append(fn(k, *body))
+    out += [fn(1, P1, BRK, P1), fn(2, P1, BRK, Q), fn(0, BRK, P1), lam(1, P1, BRK, P1), lam(2, P1, P1, BRK, P1), lam(0, BRK), loop(P1, BRK, Q),
+            fn(1, lam(1, P1, BRK, P1), P1), lst((BRK, P1), (Q,)), fn(1, loop(BRK), P1, P1)]
     out += [lst((P1, P1), (P2,)), lst((Q,), (Q, P1), (P1,)), loop(P1), loop(Q), loop(P2), loop(lam(1, P1, P1)),
             lam(1, fn(1, P1, P1)), fn(2, lam(1, P1, P1), P1)]
     seen = []
